@@ -241,8 +241,8 @@ def close(a, b, single):
     a128 = np.ascontiguousarray(a).astype(np.complex128)
     b128 = np.ascontiguousarray(b).astype(np.complex128)
     scale = float(max(np.max(np.abs(a128)), np.max(np.abs(b128)), 1e-300))
-    if not (np.all(np.isfinite(a128.view(float))) and np.all(np.isfinite(b128.view(float)))):
-        same = np.array_equal(np.isfinite(a128.view(float)), np.isfinite(b128.view(float)))
+    if not (np.all(np.isfinite(a128)) and np.all(np.isfinite(b128))):
+        same = np.array_equal(np.isfinite(a128), np.isfinite(b128))
         return same, 0.0 if same else float("inf")
     d = float(np.max(np.abs(a128 - b128))) / scale
     return d <= (1e-5 if single else 1e-12), d
@@ -530,7 +530,7 @@ class OpsWorld(World):
                 single = is_single(x, y, ox, oy, oz) or x.dtype.kind != "c" or y.dtype.kind != "c"
                 lhs = oz.astype(np.complex128)
                 rhs = a * ox.astype(np.complex128) + oy.astype(np.complex128)
-                if not (np.all(np.isfinite(lhs.view(float))) and np.all(np.isfinite(rhs.view(float)))):
+                if not (np.all(np.isfinite(lhs)) and np.all(np.isfinite(rhs))):
                     # overflow of the working precision (e.g. repeated normal operators of a
                     # large-gain kernel in float32): nothing to compare
                     stats["probes.lin_overflow_unjudged"] += 1
